@@ -76,6 +76,8 @@ def atom_vocabulary():
     A.append(("test", "tags", ("k",), "truthy", ()))
     A.append(("cmp", "tags", ("k", ("map", "upper")), "==", "A"))
     A.append(("cmp", "tags", ("k", ("map", "raise")), "==", "a"))
+    A.append(("cmp", "tags", (("map", "ident"), "k"), "==", "a"))  # map over the whole tag set, then the key
+    A.append(("cmp", "tags", (("map", "ident"), "k", ("map", "upper")), "==", "B"))
     A.append(("noop", "tags"))
     # fields
     for op in ops:
@@ -97,6 +99,7 @@ def atom_vocabulary():
     A.append(("test", "measurement", (), "startswith_arg", ("m1",)))
     A.append(("cmp", "fields", ("x", ("map", "neg")), "<", 0))
     A.append(("cmp", "fields", ("x", ("map", "abs")), ">=", 1.5))
+    A.append(("cmp", "fields", (("map", "ident"), "x"), ">=", 1.5))
     A.append(("noop", "fields"))
     return A
 
@@ -111,7 +114,7 @@ def quick_atoms(A):
             seen.add(key)
             keep.append(a)
     # one more each for the None/missing sensitive ones
-    return keep[:38]
+    return keep[:44]
 
 
 CORE_ATOMS = [
